@@ -438,7 +438,7 @@ class TD3(RLAlgorithm):
 
         with torch.no_grad():
             next_actions = self.actor_target(next_states)
-            noise = actions.data.normal_(0, policy_noise)
+            noise = torch.randn_like(actions) * policy_noise
             noise = self.multi_dim_clamp(-noise_clip, noise_clip, noise.to(self.device))
             next_actions = next_actions + noise
             next_actions = self.multi_dim_clamp(
